@@ -386,14 +386,14 @@ def registry(ctx: Ctx, rule: str) -> None:
 
 
 def run(ctx: Ctx) -> None:
-    op_table(ctx, "1", "get")
-    op_table(ctx, "2", "set")
-    op_table(ctx, "3", "unset")
-    check_table(ctx, "4")
-    push_pop(ctx, "5")
-    readme_table(ctx, "7")
-    check_chain(ctx, "9")
-    registry(ctx, "10")
+    ctx.call(op_table, "1", "get")
+    ctx.call(op_table, "2", "set")
+    ctx.call(op_table, "3", "unset")
+    ctx.call(check_table, "4")
+    ctx.call(push_pop, "5")
+    ctx.call(readme_table, "7")
+    ctx.call(check_chain, "9")
+    ctx.call(registry, "10")
 
 
 MUTANTS = [
